@@ -44,6 +44,10 @@ class C12(Prop):
         rc, out, p, dt = C.go_test_overlay(ctx.work, "./agent/websockets/", "TestVerifC12Shapes$", OVERLAY, "shapes.jsonl", ctx.seed, ctx.tier, timeout=600)
         obs["shapes"] = C.read_jsonl(p)
         obs["shapes_tail"] = out[-3000:]
+        rc, out, p, dt = C.go_test_overlay(ctx.work, "./agent/websockets/", "TestVerifC12Deaf$", OVERLAY, "deaf.jsonl", ctx.seed, ctx.tier, timeout=600)
+        obs["deaf"] = C.read_jsonl(p)
+        if rc != 0 or not obs["deaf"]:
+            raise RuntimeError("C12 deaf-backend harness did not run: rc=%s\n%s" % (rc, out[-2000:]))
         rc, out, p, dt = C.go_test_overlay(ctx.work, "./agent/websockets/", "TestVerifC12Conc$", OVERLAY, "conc.jsonl", ctx.seed, ctx.tier, race=True, timeout=2400)
         obs["conc"] = C.read_jsonl(p)
         obs["races"] = servsched.race_reports(out)
@@ -59,6 +63,12 @@ class C12(Prop):
         res = []
         for sig, txt in obs["races"]:
             res.append((sig, "the race detector reported a data race in the shim handlers", {"report": txt}))
+        for r in obs.get("deaf") or []:
+            rp = {"driver": "TestVerifC12Deaf: open, then close, against a backend that is %s; the backend reports whether the agent's end of its socket went away within 3 s" % r["backend"], "observed": r}
+            if r.get("open_status") != 200:
+                res.append(("deaf:open-failed", "open answered %s" % r.get("open_status"), rp))
+            elif r.get("close_status") != 200 or not r.get("backend_socket_closed"):
+                res.append(("deaf:close-did-not-close-backend-websocket", "close answered %s, but the backend websocket (%s) was not closed by the agent: %s" % (r.get("close_status"), r["backend"], r.get("backend_saw")), rp))
         shapes = obs.get("shapes") or []
         if not any(r.get("kind") == "shapes-survived" for r in shapes):
             import re
@@ -98,7 +108,8 @@ class C12(Prop):
                 rest = ops[i + 1:]
                 if "backend-close" in rest:
                     j = i + 1 + rest.index("backend-close")
-                    if not any(o in ("poll", "close", "open") for o in ops[:j]):
+                    # (a backend that had already closed before the send has sent nothing)
+                    if not any(o in ("poll", "close", "open", "backend-close") for o in ops[:i]) and not any(o in ("poll", "close", "open") for o in ops[:j]):
                         after = ops[j + 1:]
                         if after and after[0] == "poll" and sts[j + 1] != 200:
                             res.append(("seq:buffered-messages-lost-at-backend-close", "backend sent a message and closed; the first poll afterwards answered %s instead of delivering the message" % sts[j + 1], rp))
